@@ -4,7 +4,9 @@
 translate:      harness/translate_styles.py -> lean/OdfModel/Generated/StyleRefs.lean (schema style-reference
                 attributes from the .rng, followed attributes MEASURED on the real `_used_auto_styles` and
                 cross-checked with the AST of `_STYLE_REF_ATTRS` / `_STYLE_REF_LIST_ATTRS`, separators of str.split)
-proof:          lean/OdfModel/Props/C10.lean about lean/OdfModel/Styles.lean
+proof:          lean/OdfModel/Props/C10.lean about lean/OdfModel/Styles.lean; lean/OdfModel/Props/C10Hist.lean: histories of one
+                document object (saves, saves that fail part-way, additive edits): the retry writes what a first save writes,
+                what was written stays written, a style added after a failed save and referenced from new content is written
 correspondence: the name list the real `_used_auto_styles` ends with (captured from `_stylerefs_of` /
                 `_parseoneelement`) and the elements it returns at the two real call sites (contentxml,
                 stylesxml)  vs  drv_styles, on generated style graphs (the real tree is dumped and sent to the model)
@@ -12,6 +14,9 @@ oracle:         save() the document, parse content.xml / styles.xml with expat, 
                 reference site (every attribute of the schema list) against the styles present in its own
                 part; each written automatic style compared (infoset) with the in-memory element; at most
                 once per part; no written automatic style that nothing in its part refers to.  Independent of the model.
+                Histories: the same oracle on the save that ends a history of failed saves (a file object whose write()
+                raises inside each member of the package; a node that cannot be rendered) and edits, compared with the
+                first save of a never saved twin with the same edits; the tree after the history goes to the model too.
 """
 import io, zipfile, json, re
 import xml.parsers.expat
@@ -77,20 +82,16 @@ def empty_recipe(doctype='text'):
 OBJECT_CONVERTERS = ('cnv_StyleNameRef',)      # converters that take a style object and store its style:name
 
 
-def realise(recipe):
-    """build the real document of a recipe (generic elements, grammar checks off, setAttrNS for every attribute);
-    references flagged so are given as style OBJECTS; `recipe['objects']` are embedded with addObject (recursively).
-    `doc.c10_problems` collects what went wrong while building: (signature, detail)"""
-    from odf import opendocument
-    from odf.element import Element
-    from odf.attrconverters import attrconverters
-    mk = {'text': opendocument.OpenDocumentText, 'spreadsheet': opendocument.OpenDocumentSpreadsheet,
-          'presentation': opendocument.OpenDocumentPresentation, 'drawing': opendocument.OpenDocumentDrawing}
-    d = mk[recipe['doctype']]()
-    problems = []
-    registry = {}
+class _Build(object):
+    """the helpers that turn recipe data into real elements of ONE document; kept on the document
+    (`doc.c10_build`) so that a history can go on editing it (apply_edit)"""
+    def __init__(self):
+        self.problems = []
+        self.registry = {}
 
-    def put(e, a, v, obj=False):
+    def put(self, e, a, v, obj=False):
+        from odf.attrconverters import attrconverters
+        problems, registry = self.problems, self.registry
         a = (a[0], a[1])
         if obj and v in registry:
             conv = attrconverters.get((a, e.qname)) or attrconverters.get((a, None))
@@ -114,65 +115,87 @@ def realise(recipe):
         if e.attributes.get(a) != v:       # e.g. cnv_NCNames wants a list and spaces a string out (C15's subject)
             e.attributes[a] = v
 
-    def putrefs(e, refs):
+    def putrefs(self, e, refs):
         for r in refs:
-            put(e, r[0], r[1], len(r) > 2 and r[2])
+            self.put(e, r[0], r[1], len(r) > 2 and r[2])
 
-    def build(r):
+    def build(self, r):
+        from odf.element import Element
         e = Element(qname=(r['q'][0], r['q'][1]), check_grammar=False)
-        putrefs(e, r['refs'])
+        self.putrefs(e, r['refs'])
         if r.get('text'):
             e.addText(r['text'], check_grammar=False)
         for k in r['kids']:
-            e.addElement(build(k), check_grammar=False)
+            e.addElement(self.build(k), check_grammar=False)
         return e
 
-    def new_style(s):
+    def new_style(self, s):
+        from odf.element import Element
         q, extra, kidq = KINDS[s['kind']]
         e = Element(qname=q, check_grammar=False)
-        put(e, STYLE_NAME, s['name'])
+        self.put(e, STYLE_NAME, s['name'])
         for a, v in sorted(extra.items()):
-            put(e, a, v)
+            self.put(e, a, v)
         return e
 
-    def finish_style(e, s):
+    def finish_style(self, e, s):
+        from odf.element import Element
         q, extra, kidq = KINDS[s['kind']]
-        putrefs(e, s['refs'])
+        self.putrefs(e, s['refs'])
         if s['kidrefs']:
             k = Element(qname=kidq or (NS['style'], 'text-properties'), check_grammar=False)
-            putrefs(k, s['kidrefs'])
+            self.putrefs(k, s['kidrefs'])
             e.addElement(k, check_grammar=False)
 
-    # first every style element (so that references can be given as objects), then their references
-    made = []
-    for s in recipe['auto']:
-        e = new_style(s); made.append((e, s)); registry.setdefault(s['name'], []).append(e)
-    cmade = []
-    for s in recipe['common']:
-        e = new_style(s); cmade.append((e, s)); registry.setdefault(s['name'], []).append(e)
-    for e, s in cmade:
-        finish_style(e, s)
-        d.styles.addElement(e, check_grammar=False)
-    for e, s in made:
-        finish_style(e, s)
-        if s.get('late_name'):
-            # a second style:style under an existing name would be renamed to 'M'+name when it is added
-            # (__register_stylename); give it its name once it is in the tree
-            put(e, STYLE_NAME, s['name'] + u'__tmp')
-            d.automaticstyles.addElement(e, check_grammar=False)
-            put(e, STYLE_NAME, s['name'])
-        else:
-            d.automaticstyles.addElement(e, check_grammar=False)
-    main = [c for c in d.body.childNodes][0] if d.body.childNodes else d.body
-    for r in recipe['body']:
-        main.addElement(build(r), check_grammar=False)
-    for r in recipe['master']:
-        d.masterstyles.addElement(build(r), check_grammar=False)
+    def add_styles(self, d, common, auto):
+        """first every style element (so that references can be given as objects), then their references"""
+        registry = self.registry
+        made = []
+        for s in auto:
+            e = self.new_style(s); made.append((e, s)); registry.setdefault(s['name'], []).append(e)
+        cmade = []
+        for s in common:
+            e = self.new_style(s); cmade.append((e, s)); registry.setdefault(s['name'], []).append(e)
+        for e, s in cmade:
+            self.finish_style(e, s)
+            d.styles.addElement(e, check_grammar=False)
+        for e, s in made:
+            self.finish_style(e, s)
+            if s.get('late_name'):
+                # a second style:style under an existing name would be renamed to 'M'+name when it is added
+                # (__register_stylename); give it its name once it is in the tree
+                self.put(e, STYLE_NAME, s['name'] + u'__tmp')
+                d.automaticstyles.addElement(e, check_grammar=False)
+                self.put(e, STYLE_NAME, s['name'])
+            else:
+                d.automaticstyles.addElement(e, check_grammar=False)
+
+    def add_content(self, d, body, master):
+        main = [c for c in d.body.childNodes][0] if d.body.childNodes else d.body
+        for r in body:
+            main.addElement(self.build(r), check_grammar=False)
+        for r in master:
+            d.masterstyles.addElement(self.build(r), check_grammar=False)
+
+
+def realise(recipe):
+    """build the real document of a recipe (generic elements, grammar checks off, setAttrNS for every attribute);
+    references flagged so are given as style OBJECTS; `recipe['objects']` are embedded with addObject (recursively).
+    `doc.c10_problems` collects what went wrong while building: (signature, detail)"""
+    from odf import opendocument
+    mk = {'text': opendocument.OpenDocumentText, 'spreadsheet': opendocument.OpenDocumentSpreadsheet,
+          'presentation': opendocument.OpenDocumentPresentation, 'drawing': opendocument.OpenDocumentDrawing}
+    d = mk[recipe['doctype']]()
+    b = _Build()
+    problems = b.problems
+    b.add_styles(d, recipe['common'], recipe['auto'])
+    b.add_content(d, recipe['body'], recipe['master'])
     for sub in recipe.get('objects', []):
         sd = realise(sub)
         d.addObject(sd)
         problems.extend(sd.c10_problems)
     d.c10_problems = problems
+    d.c10_build = b
     return d
 
 
@@ -528,6 +551,7 @@ def oracle(top, T):
     """the property on the saved package of `top`: every document of the package (the top one and every embedded
     object) against the parts in ITS folder.  returns ([(signature, detail)], number of reference sites)"""
     buf = io.BytesIO(); top.save(buf); buf.seek(0)
+    oracle.package = buf.getvalue()
     z = zipfile.ZipFile(buf)
     fails = list(getattr(top, 'c10_problems', []))
     sites = 0
@@ -722,7 +746,7 @@ def run_doc(chk, recipe, info, T, lines, pend, recipes):
     doc = realise(recipe)
     for d, prefix in all_docs(doc):
         correspond(chk, d, T, lines, pend)
-        recipes.append(recipe)
+        recipes.append({'recipe': recipe})
         chk.count('documents_incl_embedded')
     if len(doc.childobjects):
         chk.count('packages_with_embedded_objects')
@@ -756,6 +780,446 @@ def run_doc(chk, recipe, info, T, lines, pend, recipes):
     return fails
 
 
+# ------------------------------------------------------------------ histories: saves that fail part-way, edits, a retry
+# The property speaks of "when a document is saved": EVERY save of a document object, not only the first one of a freshly built
+# document.  A history is pure data:  [{'op': 'save'} | {'op': 'failsave', ...} | {'op': 'poisonsave', ...} | {'op': 'edit', ...}]*
+# followed by the final save that the oracle judges.
+#   failsave    write()/save() to a user supplied file object with room for N bytes only: its write() stores what still fits
+#               and raises (ENOSPC / EPIPE / EIO / an application defined exception / KeyboardInterrupt).  N is derived from
+#               (member, frac): the fault lands in that member of the package (mimetype, styles.xml, content.xml, meta.xml,
+#               the parts of every embedded object, the manifest, the central directory), measured on a twin document that
+#               was never saved before.  The application catches the exception and keeps the document object.
+#   poisonsave  the fault is in the document: a node of an application defined Element subclass whose toXml() raises sits in
+#               the body / the master styles of one (sub)document while it is saved; the application removes it afterwards.
+#   edit        new automatic styles (chains too), referenced from new body content, from a new footer of an existing master
+#               page or from a new master page; existing automatic styles redefined (also: made to refer to a new style);
+#               body content removed; in the top document or in an embedded object ('path').
+# Expected (from the property text alone): the package of the final save satisfies every clause of the oracle exactly as the
+# first save of a twin document does that got the same edits and was never saved before.
+import errno as _errno
+
+
+class SinkError(Exception):
+    """an application defined failure of the output"""
+
+
+class RenderError(Exception):
+    """an application defined node refuses to be rendered"""
+
+
+EXCS = ['ENOSPC', 'EPIPE', 'EIO', 'custom', 'interrupt']
+
+
+def _raise(exc):
+    if exc == 'ENOSPC':
+        raise OSError(_errno.ENOSPC, 'No space left on device')
+    if exc == 'EPIPE':
+        raise BrokenPipeError(_errno.EPIPE, 'Broken pipe')
+    if exc == 'EIO':
+        raise IOError(_errno.EIO, 'Input/output error')
+    if exc == 'interrupt':
+        raise KeyboardInterrupt()
+    raise SinkError('the output failed')
+
+
+class Disk(io.BytesIO):
+    """a seekable user supplied file object on a volume with `room` bytes (None: unlimited)"""
+    def __init__(self, room=None, exc='ENOSPC'):
+        io.BytesIO.__init__(self)
+        self.room = room; self.exc = exc; self.failed = 0
+    def write(self, data):
+        if self.room is not None and self.tell() + len(data) > self.room:
+            fit = max(0, self.room - self.tell())
+            if fit:
+                io.BytesIO.write(self, bytes(data[:fit]))
+            self.failed += 1
+            _raise(self.exc)
+        return io.BytesIO.write(self, data)
+    def data(self):
+        return self.getvalue()
+
+
+class Pipe(object):
+    """a write-only user supplied file object (no seek, no tell: a pipe, a socket) that breaks after `room` bytes"""
+    def __init__(self, room=None, exc='EPIPE'):
+        self.room = room; self.exc = exc; self.failed = 0; self.n = 0; self.chunks = []
+    def write(self, data):
+        data = bytes(data)
+        if self.room is not None and self.n + len(data) > self.room:
+            fit = max(0, self.room - self.n)
+            if fit:
+                self.chunks.append(data[:fit]); self.n += fit
+            self.failed += 1
+            _raise(self.exc)
+        self.chunks.append(data); self.n += len(data)
+        return len(data)
+    def flush(self):
+        pass
+    def data(self):
+        return b''.join(self.chunks)
+
+
+SINKS = {'disk': Disk, 'pipe': Pipe}
+
+
+def doc_at(top, path):
+    d = top
+    for i in path:
+        d = d.childobjects[i]
+    return d
+
+
+def main_of(d):
+    return [c for c in d.body.childNodes][0] if d.body.childNodes else d.body
+
+
+def apply_edit(top, ed):
+    """the application goes on working on the document (plain API calls on the real tree, through the recipe builder)"""
+    d = doc_at(top, ed.get('path', []))
+    b = d.c10_build
+    before = len(b.problems)
+    b.add_styles(d, ed.get('common', []), ed.get('auto', []))
+    for name, a, v in ed.get('redefine', []):
+        for e in list(d.automaticstyles.childNodes):
+            if e.nodeType == 1 and e.attributes.get(STYLE_NAME) is not None and (u'%s' % (e.attributes.get(STYLE_NAME),)) == name:
+                b.put(e, a, v, False)
+    main = main_of(d)
+    for k in sorted(set(ed.get('drop_body', [])), reverse=True):
+        kids = [c for c in main.childNodes]
+        if k < len(kids):
+            main.removeChild(kids[k])
+    b.add_content(d, ed.get('body', []), ed.get('master', []))
+    for page, part in ed.get('footers', []):
+        pages = [c for c in d.masterstyles.childNodes if c.nodeType == 1]
+        if pages:
+            pages[page % len(pages)].addElement(b.build(part), check_grammar=False)
+        else:
+            b.add_content(d, [], [el((NS['style'], 'master-page'), [(STYLE_NAME, 'EditMaster')], [part])])
+    if d is not top:
+        top.c10_problems.extend(b.problems[before:])
+
+
+def measure(recipe, edits, sink):
+    """the members of the package a NEVER SAVED twin (recipe + edits) writes to a sink of this kind: [(name, offset)] in the
+    order of writing, the central directory last, and the total size (zipfile reads the twin's package)"""
+    twin = realise(recipe)
+    for ed in edits:
+        apply_edit(twin, ed)
+    out = SINKS[sink]()
+    twin.save(out)
+    blob = out.data()
+    z = zipfile.ZipFile(io.BytesIO(blob))
+    members = sorted([(zi.header_offset, zi.filename) for zi in z.infolist()])
+    members = [(n, o) for o, n in members] + [('central-directory', z.start_dir)]
+    return members, len(blob)
+
+
+def member_class(name):
+    if '/' in name and not name.startswith('META-INF/'):
+        return 'object/' + name.rsplit('/', 1)[1]
+    return name
+
+
+def _poison():
+    from odf.element import Element
+    class Poison(Element):
+        def toXml(self, level, f):
+            raise RenderError('this node cannot be rendered')
+    return Poison(qname=(NS['text'], 'p'), check_grammar=False)
+
+
+def _do_save(doc, entry, out):
+    if entry == 'write':
+        doc.write(out)
+    else:
+        doc.save(out)
+
+
+def _quiet_abandoned_zipfiles():
+    """the ZipFile of a failed save is abandoned by the library; when it is collected (any time later) its __del__ tries to
+    finish the archive and complains on stderr.  The application never sees that: keep it off the check's output."""
+    import sys
+    if getattr(_quiet_abandoned_zipfiles, 'installed', False):
+        return
+    prev = sys.unraisablehook
+    def hook(u):
+        if getattr(u.object, '__qualname__', '') == 'ZipFile.__del__':
+            return
+        prev(u)
+    sys.unraisablehook = hook
+    _quiet_abandoned_zipfiles.installed = True
+
+
+def play(recipe, history, trace=None):
+    """build the document of `recipe` and take it through `history` on the real library.  returns the document, ready for
+    the final save; `trace` (a list) receives one dict per step: what really happened"""
+    import sys
+    doc = realise(recipe)
+    edits = []
+    trace = trace if trace is not None else []
+    _quiet_abandoned_zipfiles()
+    try:
+        for st in history:
+            op = st['op']
+            if op == 'edit':
+                apply_edit(doc, st); edits.append(st)
+                trace.append({'op': 'edit', 'new_auto': len(st.get('auto', []))})
+            elif op == 'save':
+                _do_save(doc, st.get('entry', 'save'), io.BytesIO())
+                trace.append({'op': 'save', 'ok': True})
+            elif op == 'failsave':
+                members, total = measure(recipe, edits, st['sink'])
+                m = st['member'] % len(members)
+                lo = members[m][1]
+                hi = members[m + 1][1] if m + 1 < len(members) else total
+                room = lo + int(st['frac'] * (hi - lo))
+                out = SINKS[st['sink']](room, st['exc'])
+                raised = None
+                try:
+                    _do_save(doc, st['entry'], out)
+                except BaseException as ex:
+                    if not out.failed:
+                        raise
+                    raised = type(ex).__name__
+                out.room = None               # (lets the abandoned ZipFile finish quietly)
+                trace.append({'op': 'failsave', 'member': members[m][0], 'room': room, 'of': total, 'raised': raised,
+                              'sink_failed': out.failed})
+            elif op == 'poisonsave':
+                d = doc_at(doc, st.get('path', []))
+                node = _poison()
+                holder = main_of(d) if st['where'] == 'body' else d.masterstyles
+                holder.addElement(node, check_grammar=False)
+                raised = None
+                try:
+                    _do_save(doc, st.get('entry', 'save'), io.BytesIO())
+                except RenderError as ex:
+                    raised = type(ex).__name__
+                holder.removeChild(node)
+                trace.append({'op': 'poisonsave', 'where': st['where'], 'path': st.get('path', []), 'raised': raised})
+            else:
+                raise ValueError('unknown history step %r' % (op,))
+    finally:
+        pass
+    return doc
+
+
+def auto_sections(blob):
+    """{part name: [infoset of each written automatic style]} for every content.xml / styles.xml of a package (expat)"""
+    z = zipfile.ZipFile(io.BytesIO(blob))
+    out = {}
+    for n in sorted(z.namelist()):
+        if n.rsplit('/', 1)[-1] in ('content.xml', 'styles.xml'):
+            a = child(parse_infoset(z.read(n)), (NS['office'], 'automatic-styles'))
+            out[n] = [x for x in (a[2] if a is not None else ()) if isinstance(x, tuple)]
+    return out
+
+
+def judge_history(recipe, history, T):
+    """the final save of the history against the property, and against the first save of the never saved twin.
+    returns (first-save failures of the twin [plain signatures], failures only the history has [prefixed], sites, trace)"""
+    edits = [st for st in history if st['op'] == 'edit']
+    twin = realise(recipe)
+    for ed in edits:
+        apply_edit(twin, ed)
+    fails0, _ = oracle(twin, T)
+    sections0 = auto_sections(oracle.package)
+    trace = []
+    doc = play(recipe, history, trace)
+    fails1, sites = oracle(doc, T)
+    sections1 = auto_sections(oracle.package)
+    failed_before = any(t['op'] in ('failsave', 'poisonsave') and t.get('raised') for t in trace)
+    prefix = 'retry-after-failed-save:' if failed_before else 'save-again:'
+    new = [(prefix + sig, detail) for sig, detail in fails1 if (sig, detail) not in fails0]
+    for n in sorted(set(sections0) | set(sections1)):
+        a, b = sections0.get(n), sections1.get(n)
+        if a != b and not new:
+            names = lambda l: [attr_of(x, STYLE_NAME) for x in (l or [])]
+            new.append((prefix + 'automatic-styles-differ-from-first-save:' + n.rsplit('/', 1)[-1],
+                        '%s: a document with the same content that was never saved before writes the automatic styles %r, '
+                        'this one writes %r' % (n, names(a), names(b))))
+    return fails0, new, sites, trace
+
+
+def run_history(chk, recipe, history, info, T, lines, pend, cases, with_model=True):
+    fails0, new, sites, trace = judge_history(recipe, history, T)
+    case = {'recipe': recipe, 'history': history, 'info': info}
+    real_faults = [t for t in trace if t['op'] in ('failsave', 'poisonsave') and t.get('raised')]
+    later_auto = 0
+    seen_fault = False
+    for t in trace:
+        if t['op'] in ('failsave', 'poisonsave') and t.get('raised'):
+            seen_fault = True
+        if t['op'] == 'edit' and seen_fault:
+            later_auto += t['new_auto']
+    chk.case(json.dumps({'recipe': recipe, 'history': history}, sort_keys=True), nontrivial=bool(sites > 0 and real_faults and later_auto),
+             sample={'info': info, 'trace': trace, 'sites': sites, 'failures': sorted(set(f[0] for f in fails0 + new))})
+    chk.count('histories')
+    chk.count('gen_' + info['gen'])
+    chk.count('history_reference_sites_checked', sites)
+    for t in trace:
+        if t['op'] == 'failsave':
+            chk.count('failsave_' + ('raised_' + t['raised'] if t['raised'] else 'did_not_fail'))
+            if t['raised']:
+                chk.count('fault_in_' + member_class(t['member']))
+        elif t['op'] == 'poisonsave':
+            chk.count('poisonsave_' + t['where'] + ('_raised' if t['raised'] else '_did_not_fail'))
+        elif t['op'] == 'save':
+            chk.count('history_ok_saves')
+    if real_faults and later_auto:
+        chk.count('histories_new_auto_styles_after_a_failed_save')
+    if not fails0 and not new and oracle.stats.get('auto_ref_resolved'):
+        chk.count('histories_clean_with_resolved_auto_refs')
+    seen = set()
+    for sig, detail in fails0 + new:
+        if sig in seen:
+            continue
+        seen.add(sig)
+        chk.fail(sig, case, detail)
+    if with_model:
+        # the model is a function of the tree alone: the state the real object is in after the history (before the final
+        # save) must select what the model selects on the dumped tree
+        doc = play(recipe, history)
+        for d, prefix in all_docs(doc):
+            correspond(chk, d, T, lines, pend)
+            cases.append(case)
+            chk.count('documents_after_a_history_sent_to_the_model')
+    return new
+
+
+def _new_style_edit(path, tag, T, footer=True, body=True):
+    tsn = (NS['text'], 'style-name')
+    ed = {'op': 'edit', 'path': list(path), 'auto': [], 'body': [], 'footers': []}
+    if body:
+        ed['auto'].append(style_recipe('paragraph', tag + 'P2', kidrefs=[((NS['fo'], 'color'), '#123456')]))
+        ed['body'].append(el((NS['text'], 'p'), [(tsn, tag + 'P2', True)], text='added after the failed save'))
+    if footer:
+        ed['auto'].append(style_recipe('paragraph', tag + 'MP2', refs=[((NS['style'], 'list-style-name'), tag + 'ML2', True)]))
+        ed['auto'].append(style_recipe('list', tag + 'ML2'))
+        ed['footers'].append([0, el((NS['style'], 'footer'), (), [el((NS['text'], 'p'), [(tsn, tag + 'MP2')], text='footer')])])
+    return ed
+
+
+def paths_of(recipe, here=()):
+    out = [list(here)]
+    for i, sub in enumerate(recipe.get('objects', [])):
+        out.extend(paths_of(sub, tuple(here) + (i,)))
+    return out
+
+
+def gen_histories_structured(T):
+    """every member of the package x the fault lands there; then a new automatic style referenced from the body and one
+    (with a list style behind it) from a new footer, in every document of the package; then the retry"""
+    bases = [(info['shape'], r) for r, info in gen_embedded(T)]
+    single = json.loads(json.dumps(bases[1][1]['objects'][0]))
+    bases.insert(0, ('no object', single))
+    k = 0
+    for shape, recipe in bases:
+        members, total = measure(recipe, [], 'disk')
+        paths = paths_of(recipe)
+        for m in range(len(members)):
+            k += 1
+            fs = {'op': 'failsave', 'entry': ['write', 'save'][k % 2], 'sink': ['disk', 'pipe'][(k // 2) % 2],
+                  'exc': EXCS[k % len(EXCS)], 'member': m, 'frac': [0.0, 0.5, 0.97][k % 3]}
+            hist = [fs] + [_new_style_edit(p, 'E%d' % i, T) for i, p in enumerate(paths)]
+            yield recipe, hist, {'gen': 'history-structured', 'shape': shape, 'member': members[m][0]}
+        # the fault in the document: a node that cannot be rendered, in the body / the master styles of each document
+        for p in paths:
+            for where in ('body', 'master'):
+                hist = [{'op': 'poisonsave', 'path': p, 'where': where, 'entry': 'save'}] + \
+                       [_new_style_edit(q, 'E%d' % i, T) for i, q in enumerate(paths)]
+                yield recipe, hist, {'gen': 'history-structured', 'shape': shape, 'poison': where}
+    # no fault at all: save, edit, save again (and twice)
+    for shape, recipe in bases[:2]:
+        paths = paths_of(recipe)
+        for n in (1, 2):
+            hist = [{'op': 'save', 'entry': ['save', 'write'][n % 2]}] * n + [_new_style_edit(q, 'E%d' % i, T) for i, q in enumerate(paths)]
+            yield recipe, hist, {'gen': 'history-structured', 'shape': shape, 'saves_before': n}
+
+
+def gen_history_random(rng, T):
+    recipe, info = gen_random(rng, T)
+    schema = list(T['schema'])
+    paths = paths_of(recipe)
+    def sub(path):
+        r = recipe
+        for i in path:
+            r = r['objects'][i]
+        return r
+    names = dict((json.dumps(p), [s['name'] for s in sub(p)['auto']]) for p in paths)
+    nbody = dict((json.dumps(p), len(sub(p)['body'])) for p in paths)
+    hist = []
+    serial = [0]
+
+    def ref(name, pool):
+        a = rng.choice(schema)
+        if a in T['listTyped']:
+            v = rng.choice([u'', u' ', u'Missing ']) + name + rng.choice([u'', u'\t' + rng.choice(pool), u'  Missing'])
+            return (a, v)
+        return (a, name, rng.random() < 0.5)
+
+    def edit():
+        p = rng.choice(paths); key = json.dumps(p)
+        old = names[key]
+        ed = {'op': 'edit', 'path': p, 'auto': [], 'body': [], 'footers': [], 'master': [], 'redefine': [], 'drop_body': []}
+        fresh = []
+        for _ in range(rng.choice([0, 1, 1, 2, 3])):
+            serial[0] += 1
+            fresh.append('N%d' % serial[0])
+        for i, nm in enumerate(fresh):
+            kind = rng.choice(KIND_NAMES)
+            rf, kf = [], []
+            x = rng.random()
+            if x < 0.45 and i + 1 < len(fresh):
+                (rf if rng.random() < 0.6 or KINDS[kind][2] is None else kf).append(ref(fresh[i + 1], old + fresh))   # a chain of new styles
+            elif x < 0.6 and old:
+                rf.append(ref(rng.choice(old), old + fresh))       # a new style in front of an old one
+            ed['auto'].append(style_recipe(kind, nm, rf, kf))
+        pool = old + fresh
+        roots = fresh[:1] if fresh else []
+        targets = roots + ([rng.choice(pool)] if pool and rng.random() < 0.5 else [])
+        for nm in targets:
+            site = el(rng.choice(BODY_ELEMS), [ref(nm, pool)], text=rng.choice([None, 'x']))
+            x = rng.random()
+            if x < 0.45:
+                ed['body'].append(site)
+            elif x < 0.8:
+                ed['footers'].append([rng.randint(0, 3), el(rng.choice(MASTER_PARTS), (), [site])])
+            else:
+                serial[0] += 1
+                ed['master'].append(el((NS['style'], 'master-page'), [(STYLE_NAME, 'NewMaster%d' % serial[0])] +
+                                       ([((NS['style'], 'page-layout-name'), rng.choice(pool), rng.random() < 0.5)] if rng.random() < 0.4 else []),
+                                       [el(rng.choice(MASTER_PARTS), (), [site])]))
+        if old and fresh and rng.random() < 0.3:
+            # an automatic style that was there at the failed save now refers to a new one
+            a, v = ref(rng.choice(fresh), pool)[:2]
+            ed['redefine'].append([rng.choice(old), list(a), v])
+        if old and rng.random() < 0.3:
+            ed['redefine'].append([rng.choice(old), [NS['fo'], 'color'], '#%06x' % rng.randint(0, 0xffffff)])
+        if nbody[key] and rng.random() < 0.25:
+            ed['drop_body'].append(rng.randrange(nbody[key]))
+            nbody[key] -= 1
+        nbody[key] += len(ed['body'])
+        names[key] = pool
+        return ed
+
+    for _ in range(rng.choice([1, 1, 2, 3])):
+        if rng.random() < 0.3:
+            hist.append({'op': 'save', 'entry': rng.choice(['save', 'write'])})
+            if rng.random() < 0.5:
+                hist.append(edit())
+        x = rng.random()
+        if x < 0.7:
+            hist.append({'op': 'failsave', 'entry': rng.choice(['save', 'write']), 'sink': rng.choice(['disk', 'disk', 'pipe']),
+                         'exc': rng.choice(EXCS), 'member': rng.randint(0, 40), 'frac': rng.choice([0.0, rng.random(), rng.random(), 0.99])})
+        elif x < 0.9:
+            hist.append({'op': 'poisonsave', 'path': rng.choice(paths), 'where': rng.choice(['body', 'master']),
+                         'entry': rng.choice(['save', 'write'])})
+        if rng.random() < 0.9:
+            hist.append(edit())
+    info = dict(info); info['gen'] = 'history-random'
+    return recipe, hist, info
+
+
 def run(chk, replay=None):
     from odf import opendocument
     chk.rule = ('structured: every schema style-reference attribute x {body, master page} x {direct, through an automatic style}; '
@@ -764,8 +1228,27 @@ def run(chk, replay=None):
                 'master pages (header/footer/shapes/notes), other automatic styles, common styles; '
                 'embedded: documents with 1-2 embedded objects (also nested) with style graphs of their own, every folder checked against its own document; '
                 'about half of the references are handed to the library as style OBJECTS (stored value checked); '
+                'histories: a save()/write() to a file object (seekable / write-only) whose write() raises part-way (ENOSPC, EPIPE, EIO, '
+                'an application exception, KeyboardInterrupt) so that the fault lands in each member of the package in turn, or a node that '
+                'cannot be rendered in the body / master styles of a (sub)document; the application keeps the document, adds new automatic '
+                'styles referenced from the body / a new footer / a new master page (also chains, redefinitions, removals; in embedded '
+                'objects too) and saves again: the final package is judged by the same oracle and against the first save of a never '
+                'saved twin; the tree after the history is sent to the model; '
                 'non-trivial = at least one reference site and one automatic style')
     T = translate_styles.tables()
+    if replay is not None and 'history' in replay['input']:
+        recipe, history = replay['input']['recipe'], replay['input']['history']
+        fails0, new, sites, trace = judge_history(recipe, history, T)
+        for t in trace:
+            print('replay: step %s' % json.dumps(t, sort_keys=True))
+        fails = fails0 + new
+        for sig, detail in fails:
+            print('replay: %s: %s' % (sig, detail))
+        want = replay.get('signature')
+        hit = [f for f in fails if want is None or f[0] == want]
+        print('replay: history of %d steps, %d reference sites in the final package, %d failures (%d with the recorded signature)'
+              % (len(history), sites, len(fails), len(hit)))
+        return 1 if hit else 0
     if replay is not None:
         recipe = replay['input']['recipe']
         fails, sites = oracle(realise(recipe), T)
@@ -782,7 +1265,7 @@ def run(chk, replay=None):
                                'pySpaceTable': len(T['pySpace']),
                                'candidates_probed': T['candidates']}
     # 2 prove
-    chk.prove(drivers=['drv_styles'])
+    chk.prove(modules=['OdfModel.Props.C10', 'OdfModel.Props.C10Hist'], drivers=['drv_styles'])
     drv = chk.driver('drv_styles')
     ans = drv.ask('tables')
     chk.obligation('driver tables = translator tables',
@@ -799,13 +1282,20 @@ def run(chk, replay=None):
     for _ in range(nrand):
         recipe, info = gen_random(chk.rng, T)
         run_doc(chk, recipe, info, T, lines, pend, recipes)
+    # histories (failed saves, edits, retry)
+    for k, (recipe, history, info) in enumerate(gen_histories_structured(T)):
+        run_history(chk, recipe, history, info, T, lines, pend, recipes, with_model=True)
+    nhist = 2500 if chk.tier == 'thorough' else 220
+    for k in range(nhist):
+        recipe, history, info = gen_history_random(chk.rng, T)
+        run_history(chk, recipe, history, info, T, lines, pend, recipes, with_model=(k % 2 == 0))
     answers = drv.batch(lines)
-    for (impl, ordered), model, recipe in zip(pend, answers, recipes):
+    for (impl, ordered), model, case in zip(pend, answers, recipes):
         chk.corr()
         if impl != model.strip():
-            chk.corr_diff({'recipe': recipe}, impl, model, 'final name list | kept flags (content.xml) | names | flags (styles.xml) | counts')
+            chk.corr_diff(case, impl, model, 'final name list | kept flags (content.xml) | names | flags (styles.xml) | counts')
         if not ordered:
-            chk.corr_diff({'recipe': recipe}, 'kept list is not an ordered sub-list of automaticstyles.childNodes', model, 'order')
+            chk.corr_diff(case, 'kept list is not an ordered sub-list of automaticstyles.childNodes', model, 'order')
 
     def deep():
         for _ in range(4000):
@@ -814,6 +1304,12 @@ def run(chk, replay=None):
             fails, _ = oracle(doc, T)
             for sig, detail in fails:
                 if chk.fail(sig, {'recipe': recipe, 'info': info}, detail) == 'violation':
+                    return
+        for _ in range(1500):
+            recipe, history, info = gen_history_random(chk.rng, T)
+            fails0, new, _s, _t = judge_history(recipe, history, T)
+            for sig, detail in fails0 + new:
+                if chk.fail(sig, {'recipe': recipe, 'history': history, 'info': info}, detail) == 'violation':
                     return
     chk.deep_search = deep
     return chk.finish()
